@@ -812,15 +812,21 @@ where
                         self.wrap_children(elems, slot_flag, slots)
                     }
                 }
-                expr @ Expr::Fn(..) | expr @ Expr::Arrow(..) => Expr::Object(ObjectLit {
-                    span: DUMMY_SP,
-                    props: vec![PropOrSpread::Prop(Box::new(Prop::KeyValue(KeyValueProp {
-                        key: PropName::Ident(quote_ident!("default")),
-                        value: Box::new(expr.clone()),
-                    })))],
-                }),
+                expr @ Expr::Fn(..) | expr @ Expr::Arrow(..) => {
+                    let mut props =
+                        vec![PropOrSpread::Prop(Box::new(Prop::KeyValue(KeyValueProp {
+                            key: PropName::Ident(quote_ident!("default")),
+                            value: Box::new(expr.clone()),
+                        })))];
+                    merge_v_slots(&mut props, slots);
+                    Expr::Object(ObjectLit {
+                        span: DUMMY_SP,
+                        props,
+                    })
+                }
                 Expr::Object(ObjectLit { props, .. }) => {
                     let mut props = props.clone();
+                    merge_v_slots(&mut props, slots);
                     if self.options.optimize {
                         props.push(PropOrSpread::Prop(Box::new(Prop::KeyValue(KeyValueProp {
                             key: PropName::Ident(quote_ident!("_")),
@@ -881,17 +887,7 @@ where
             })),
         })))];
 
-        if let Some(expr) = slots {
-            match *expr {
-                Expr::Object(ObjectLit {
-                    props: slot_props, ..
-                }) => props.extend_from_slice(&slot_props),
-                _ => props.push(PropOrSpread::Spread(SpreadElement {
-                    dot3_token: DUMMY_SP,
-                    expr,
-                })),
-            }
-        }
+        merge_v_slots(&mut props, slots);
 
         if self.options.optimize {
             props.push(PropOrSpread::Prop(Box::new(Prop::KeyValue(KeyValueProp {
@@ -1453,6 +1449,21 @@ where
             "name",
             Expr::Lit(Lit::Str(quote_str!(name.sym.clone()))),
         );
+    }
+}
+
+/// Puts the `v-slots` entries beside the slots derived from the children.
+fn merge_v_slots(props: &mut Vec<PropOrSpread>, slots: Option<Box<Expr>>) {
+    if let Some(expr) = slots {
+        match *expr {
+            Expr::Object(ObjectLit {
+                props: slot_props, ..
+            }) => props.extend_from_slice(&slot_props),
+            _ => props.push(PropOrSpread::Spread(SpreadElement {
+                dot3_token: DUMMY_SP,
+                expr,
+            })),
+        }
     }
 }
 
